@@ -38,6 +38,12 @@ pub fn check_input(info: &mut CaseInfo, input: &str) -> CheckResult {
             fail!("grammar-push", "load/{}: {m}; events: {}", b.name(), o.dump());
         }
         info.class_if(o.error.is_none(), "accepted");
+        // push, one document per call: the calls together deliver the same kind of sentence
+        let max = crate::drive::event_bound(input.chars().count());
+        let (o, _calls) = crate::with_parser!(b, input, |p| crate::drive::push_per_doc(&mut p, max));
+        if let Err(m) = check_events(&o.evs(), o.error.is_none()) {
+            fail!("grammar-push-per-doc", "load(multi=false) repeated/{}: {m}; events: {}", b.name(), o.dump());
+        }
     }
     // the pull interface with a peek before every next: the events handed out by next() must be the
     // same kind of sentence, with nothing after StreamEnd from either call
@@ -63,7 +69,7 @@ impl Property for C02P {
     }
     fn rule(&self) -> String {
         "Same input spaces as C01 (exhaustive small scope over the YAML indicator alphabet, token soups, line soups, mutated corpus, \
-         corpus). Each input is parsed by the pull iterator by load(multi=true) on StrInput and BufferedInput, and by the pull iterator with a peek before every next; the delivered \
+         corpus). Each input is parsed by the pull iterator, by load(multi=true) and by repeated load(multi=false) on StrInput and BufferedInput, and by the pull iterator with a peek before every next; the delivered \
          events are fed to an independent pushdown recogniser of the event grammar in prefix mode (full sentence + None after \
          StreamEnd when no error), with the anchor/alias id rules. Non-trivial = at least one collection or alias event; distinct by input hash."
             .into()
